@@ -71,6 +71,13 @@ def run(ctx):
             jobs.append((cfg, prog, 'pct', n, ctx['seed'], ('--depth', '3')))
             jobs.append((cfg, program(rng, 2, 2, 1), 'dfs', n * 2, ctx['seed'], ('--pb', '2')))
             jobs.append((cfg, [['store 7', 'load', 'update 3', 'load', 'store 9', 'load']], 'opseq', 1, ctx['seed'], ()))
+    # arithmetic boundaries of the version counter: start just below 2^32 / 2^31 (ver0 = number of stores already done), every slot
+    # count incl. the ones that do not divide 2^32
+    for ver0 in ('4294967294', '2147483646'):
+        for slots in (1, 2, 3, 4):
+            cfg = {'slots': str(slots), 'size': '24', 'ver0': ver0}
+            jobs.append((cfg, [['store 1', 'load', 'store 2', 'load', 'update 3', 'load', 'store 7', 'load', 'store 9', 'load']], 'opseq', 1, ctx['seed'], ()))
+            jobs.append((cfg, [['store 1', 'store 2', 'update 1', 'store 5'], ['load', 'load', 'load'], ['load', 'load']], 'random', n // 2, ctx['seed'], ()))
     do_search(ctx, H, jobs, 'seqlock')
     return tie
 
